@@ -222,11 +222,15 @@ def invariant_for(eng, node, st, fid, seq, spec, ordn):
     i = fresh("it", z3.IntSort())
     sh = sh.assume(0 <= i, i < n, n >= 0)
     sh = sh.assume(spec.inv(spec_env(eng, sh), LoopCtx(i, n, sh, seq, fid, st)))
+    can_iterate = True
     if not eng.feasible(sh):
         # vacuity guard: under the invariant no iteration can happen although the sequence is symbolic - a contradictory invariant
-        # would make every later obligation trivially true
-        raise Unsupported(f"loop #{ordn} at line {node.lineno}: no iteration is possible under the invariant (vacuous invariant?)")
-    if True:
+        # would make every later obligation trivially true.  Not so when the sequence is provably EMPTY in the state the loop is
+        # entered in (whatever the invariant says): then the loop runs zero times and only `inv-init` and the exit are needed.
+        if eng.feasible(st.assume(0 <= i, i < n, n >= 0)):
+            raise Unsupported(f"loop #{ordn} at line {node.lineno}: no iteration is possible under the invariant (vacuous invariant?)")
+        can_iterate = False
+    if can_iterate:
         # the element: a pure read of the sequence, or (map(f, seq): lazy) the outcomes of calling f on it right now
         elems = seq.effect(eng, sh, i) if getattr(seq, "effect", None) else [("ok", sh, seq.get(sh, i))]
         n_ok = 0
